@@ -16,17 +16,18 @@ import (
 	"verif/harness/internal/core"
 	"verif/harness/internal/gen"
 	"verif/harness/internal/rng"
+	"verif/harness/internal/wire"
 )
 
 func init() {
 	core.Register(&core.Prop{
 		ID:    "C03",
 		Level: "exploration",
-		Rule: "case = one mapping (kind x alpha from grid or log-uniform in [1e-6,0.99] x offset regime {default, fractional, +-1e4..1e6, +-1e8..1.5e9}, built from alpha or from (gamma, offset) as decoders do; one case in five uses round parameters: gamma a power/root of two or 1+2^-k with integer, half-integer or 1/log2(gamma) offsets, so that bin bounds fall exactly on binade boundaries) probed at ~1500 values: computed bin lower bounds +-{0..8,16,64,256,1024,4096} ulps for bins across the whole indexable range, " +
+		Rule: "case = one mapping (kind x alpha from grid or log-uniform in [1e-6,0.99] x offset regime {default, fractional, +-1e4..1e6, +-1e8..1.5e9}, built from alpha or from (gamma, offset) as decoders do - for 30% of those literally by mapping.Decode of a block written by the reference encoder, sometimes right after a block of another kind with the same base and offset; one case in five uses round parameters: gamma a power/root of two or 1+2^-k with integer, half-integer or 1/log2(gamma) offsets, so that bin bounds fall exactly on binade boundaries) probed at ~1500 values: computed bin lower bounds +-{0..8,16,64,256,1024,4096} ulps for bins across the whole indexable range, " +
 			"binade boundaries 2^e +-k ulps, both range ends and neighbours; probes visited in increasing order. Oracle: |Value(Index v)-v| <= (alpha+64u)v; Index non-decreasing; LowerBound(i)(1-64u) <= v <= LowerBound(i+1)(1+64u); index within int32; |RelativeAccuracy-alpha| <= 2^-50; Min<Max. " +
 			"Non-trivial = >=1 probe within 8 ulps of a bin edge, a binade boundary and a range end; distinct = hash of (mapping, probes).",
 		Cases:     core.Scale(80000, 2000000),
-		Mandatory: []string{"oracle.probes", "probe.edge", "probe.binade", "probe.range_end", "oracle.monotone_adjacent_floats", "mapping.from_gamma_offset", "mapping.offset_regime_3", "mapping.round_gamma_and_offset"},
+		Mandatory: []string{"oracle.probes", "probe.edge", "probe.binade", "probe.range_end", "oracle.monotone_adjacent_floats", "mapping.from_gamma_offset", "mapping.offset_regime_3", "mapping.round_gamma_and_offset", "mapping.built_by_the_decoder"},
 		Assumptions: []string{
 			"slack 64*u(v), u(v) = 2^-52 (1 + |ln v| + (|Index v| + |offset|) * 2 atanh(alpha)): a few ulps in the index/log domain, calibrated at <= 6u on the unchanged tree",
 			"LowerBound(i+1) is only required while bin i+1 is itself indexable",
@@ -96,6 +97,44 @@ func runC03(c *core.Ctx) {
 			m = nil
 			c.Count("mapping.degenerate_skipped", 1)
 		}
+	}
+	if fromGamma && r.P(0.3) {
+		// "as decoders do" taken literally: the mapping is the one the library's decoder builds from a mapping block
+		// written by the reference encoder; right before it, a mapping of another kind with the very same base and
+		// offset is decoded in the same process (a decoder has no business remembering it)
+		mapSub := []byte{wire.SubMapLog, wire.SubMapLinear, wire.SubMapCubic}
+		dec := func(kind int) mapping.IndexMapping {
+			blk := wire.Block{Flag: wire.Flag(wire.TypeMapping, mapSub[kind]), Gamma: m.Gamma, Offset: m.Offset}
+			b := wire.EmitBlock(nil, &blk)
+			flag, err := enc.DecodeFlag(&b)
+			if err != nil {
+				return nil
+			}
+			dm, err := mapping.Decode(&b, flag)
+			if err != nil || len(b) != 0 {
+				return nil
+			}
+			return dm
+		}
+		var dm mapping.IndexMapping
+		if c.Guard("mapping.Decode", func() {
+			if r.Bool() {
+				dec((m.Kind + 1 + r.Intn(2)) % 3)
+			}
+			dm = dec(m.Kind)
+		}) {
+			return
+		}
+		if dm == nil || kindOfMapping(dm) != m.Kind {
+			c.Failf("decoded.kind", "the mapping block of %s decodes to %T", m.Desc, dm)
+			return
+		}
+		m.M = dm
+		if m.Min != dm.MinIndexableValue() || m.Max != dm.MaxIndexableValue() {
+			c.Failf("decoded.range", "the decoded %s reports the indexable range [%v,%v], the constructor [%v,%v]", m.Desc, dm.MinIndexableValue(), dm.MaxIndexableValue(), m.Min, m.Max)
+			return
+		}
+		c.Count("mapping.built_by_the_decoder", 1)
 	}
 	if fromGamma {
 		c.Count("mapping.from_gamma_offset", 1)
